@@ -99,3 +99,52 @@ func VH_C09_formats() {
 		}
 	}
 }
+
+// VH_C09_wide: the four CSV/FASTA combinations on alignments of 103 columns, so that SNP positions and ambiguity
+// ranges have one, two and three digits: one query and two targets that equal the reference except for fixed
+// differences at columns 5, 50-51 and 77, and a symbolic two-column window over "ACN" placed at the digit-count
+// boundaries (columns 8-12 and 98-103).
+func VH_C09_wide() {
+	W := 103
+	ref := make([]byte, W)
+	for i := range ref {
+		ref[i] = 'A'
+	}
+	mk := func() []byte { return append([]byte{}, ref...) }
+	q, t0, t1 := mk(), mk(), mk()
+	q[4], t0[4] = 'C', 'C'
+	t1[49], t1[50] = 'N', 'N'
+	q[76], t1[76] = 'G', 'T'
+	off := []int{7, 8, 9, 10, 97, 98, 99, 100, 101}[vChoice("offset", 9)]
+	for i := 0; i < 2; i++ {
+		q[off+i] = vNuc(vName("q", i), "ACN")
+		t0[off+i] = vNuc(vName("t0", i), "ACN")
+		t1[off+i] = vNuc(vName("t1", i), "ACN")
+	}
+	refFile := vFasta([]string{"ref"}, [][]byte{ref})
+	qFasta := vFasta([]string{"q0"}, [][]byte{q})
+	tFasta := vFasta([]string{"t0", "t1"}, [][]byte{t0, t1})
+	qCSV, tCSV := &vCapture{}, &vCapture{}
+	vAssert("C09.wide.list-ok", List(bytes.NewReader(refFile), bytes.NewReader(qFasta), qCSV) == nil && List(bytes.NewReader(refFile), bytes.NewReader(tFasta), tCSV) == nil)
+	table := vBool("table")
+	run := func(qtype, ttype string) (string, error) {
+		qr, tr := bytes.NewReader(qFasta), bytes.NewReader(tFasta)
+		if qtype == "csv" {
+			qr = bytes.NewReader(qCSV.buf)
+		}
+		if ttype == "csv" {
+			tr = bytes.NewReader(tCSV.buf)
+		}
+		out := &vCapture{}
+		err := TopRanking(qr, tr, bytes.NewReader(refFile), out, table, qtype, ttype, nil, 0, 0, 0, 0, 0, 9, 0, 0, 0, 0.5, 10000, false, 0)
+		return string(out.buf), err
+	}
+	ff, e1 := run("fasta", "fasta")
+	fc, e2 := run("fasta", "csv")
+	cf, e3 := run("csv", "fasta")
+	cc, e4 := run("csv", "csv")
+	vAssert("C09.wide.runs-ok", e1 == nil && e2 == nil && e3 == nil && e4 == nil && len(ff) > 0)
+	vAssert("C09.wide.target-format-irrelevant", fc == ff)
+	vAssert("C09.wide.query-format-irrelevant", cf == ff)
+	vAssert("C09.wide.both-csv-same-as-both-fasta", cc == ff)
+}
